@@ -57,7 +57,7 @@ def expand(b, case):
 
 def samples_of(b, kd):
     if b.get("pylist"):
-        return list(b["samples"])
+        return tuple(b["samples"]) if len(b["samples"]) % 2 else list(b["samples"])      # a python list or a tuple
     arr = np.array(b["samples"], dtype=b.get("sdtype") or (kd if kd else np.int64))
     if b.get("as_rla") and len(arr):
         return CTX.lib.RunLengthArray.from_array(arr)        # a run-length encoded batch (accepted: it converts to its dense form)
